@@ -626,6 +626,22 @@ func checkTrailing(c *core.Ctx, rel, recv, name string) {
 		c.Undecided(key+"#anchors", p.Pos(fn.Pos()), "unmarshal call or reader parameter not identified")
 		return
 	}
+	// the tokenizer must read from the very reader that is probed afterwards: a
+	// buffering wrapper in between reads ahead and hides trailing content from the probe
+	nd := 0
+	for _, ci := range core.Calls(fn) {
+		o := core.CalleeObj(ci)
+		if o == nil || o.Name() != "NewDecoder" || o.Pkg() == nil || !strings.HasPrefix(o.Pkg().Path(), "github.com/polydawn/refmt/") {
+			continue
+		}
+		nd++
+		args := ci.Common().Args
+		last := args[len(args)-1]
+		c.Check(core.Strip(last) == ssa.Value(reader), key+"#tokenizer-reads-probed-reader", p.Pos(ci.Pos()), "the tokenizer reads directly from the reader that is probed for trailing content", "the tokenizer reads from a different (wrapped/buffered) reader than the one probed for trailing content: read-ahead hides trailing bytes from the probe")
+	}
+	if nd == 0 {
+		c.Undecided(key+"#tokenizer-reads-probed-reader", p.Pos(fn.Pos()), "no refmt NewDecoder call found")
+	}
 	fast := map[core.Edge]bool{}
 	for _, b := range fn.Blocks {
 		if ifi := core.BlockIf(b); ifi != nil {
